@@ -54,7 +54,8 @@ Print Assumptions C13_unreadable_script_is_raise.
    listed state - every effectively substituted attribute, cwd, sys.path, sys.meta_path,
    sys.modules - is what it was.  No condition on the values (None included), none on what the
    script deletes or inserts into sys.path.  Guards left: the host's os.chdir/os._exit are not
-   aliased under another modelled attribute; the hook object is new; host modules are plain, fake
+   aliased under another modelled attribute; the hook object is new; the script registers no finder
+   of its own on sys.meta_path; host modules are plain, fake
    names unused, the script's module operations stay off host modules; os.path.abspath still works
    when the script ends (see the remaining _refuted theorems). *)
 Theorem C13_setup_py_partial : forall root hook cy p s,
@@ -65,7 +66,7 @@ Theorem C13_setup_py_partial : forall root hook cy p s,
   (cy = true -> get k_cythonize s <> None) ->
   forallb (fun m => is_plain (snd m)) (mods s) = true ->
   (forall n, In n fake_names -> mmem n (mods s) = false) ->
-  mod_ops_ok (mods s) (fst p) -> callable e sp = true ->
+  mod_ops_ok (mods s) (fst p) -> no_meta_ins (fst p) -> callable e sp = true ->
   exists s', analyse root hook cy false p s = Alive s' /\
     listed_state (effective_keys s) s' = listed_state (effective_keys s) s.
 Proof. exact setup_py_partial. Qed.
@@ -82,6 +83,17 @@ Theorem C13_setup_py_all_programs_partial : forall root hook cy s,
     path s' = path s.
 Proof. exact setup_py_all_programs_attrs. Qed.
 Print Assumptions C13_setup_py_all_programs_partial.
+
+(* Whatever finders the script registers on sys.meta_path (in front or appended), every ending:
+   afterwards the analyser's own hook is gone, the host's finders are all there in their order,
+   and the only additions are the script's own finders (which stay: C13_meta_path_finder_refuted). *)
+Theorem C13_hook_removed_whatever_is_registered : forall root hook cy p s,
+  host_function_unaliased k_exit s -> (cy = true -> get k_cythonize s <> None) ->
+  mem_n hook (meta s) = false -> meta_ins_fresh hook (fst p) ->
+  exists s' a b, analyse root hook cy false p s = Alive s' /\ meta s' = (a ++ meta s ++ b)%list /\
+                 mem_n hook a = false.
+Proof. exact hook_removed_whatever_is_registered. Qed.
+Print Assumptions C13_hook_removed_whatever_is_registered.
 
 (* logging.captureWarnings: switched off again when this analysis switched it on, left on when it
    was on before - every script that leaves the two attributes alone and os.path.abspath working
@@ -189,6 +201,13 @@ Theorem C13_host_module_purged_refuted :
   /\ ~ C13_full_statement.
 Proof. exact (conj host_module_purged_refuted full_statement_refuted). Qed.
 Print Assumptions C13_host_module_purged_refuted.
+
+(* a finder the setup script appends to sys.meta_path itself is still registered afterwards *)
+Theorem C13_meta_path_finder_refuted :
+  exists p s', analyse ex_root ex_hook false false p ex_state = Alive s' /\
+    meta s' = (meta ex_state ++ [77%N])%list /\ mem_n ex_hook (meta s') = false.
+Proof. exact meta_path_finder_refuted. Qed.
+Print Assumptions C13_meta_path_finder_refuted.
 
 Theorem C13_real_fs_ops_refuted : exists ops tree, run_fops ops tree <> tree.
 Proof. exact real_fs_ops_refuted. Qed.
